@@ -353,5 +353,32 @@ def run(F, rep):
                     other = None
         rep.check(other is not None and bool(other) and any(y.get('k') == 'Call' and (y.get('fn') or y.get('callee') or '').split('::')[-1] in ('fabs', 'abs') for y in walk(other[0])), 'C10.U3', 'areNearlyEqual|absolute', ne.where(b),
                   'the value compared with the machine epsilon is `%s`: the difference is scaled, so the shortcut is no longer an absolute one' % render(b)[:70], 'absolute difference compared with epsilon')
+    import c10
+
+    # ------------------------------------------------------------------ G1: both sides are read the same way
+    rep.rule('C10.G1', 'where doEquals compares a data member of this object with a getter called on the other object, that getter is the plain accessor of the same member (`return <member>;`): '
+                       'a getter that edits the value on the way out (e.g. reports 0 for an order that is not set while the member keeps its old value) makes a.equals(b) and b.equals(a) disagree')
+    n_g1 = 0
+    for cls in c10.CLASSES:
+        f_ = c10.do_equals(F, cls)
+        for b in f_.walk():
+            op_ = b.get('op') or b.get('opc')
+            if not (b.get('k') in ('Bin', 'Call') and op_ in ('==', '!=') and len(b.get('c', [])) == 2):
+                continue
+            for x, y in ((b['c'][0], b['c'][1]), (b['c'][1], b['c'][0])):
+                mem = [m_ for m_ in walk(x) if m_.get('k') == 'Member' and m_.get('field')]
+                calls = [c_ for c_ in walk(y) if c_.get('k') == 'Call' and c_.get('mc') and not c_.get('opc')]
+                if not mem or not calls or any(m_.get('k') == 'Member' and m_.get('field') for m_ in walk(y)):
+                    continue
+                gs = [F.funcs[ck] for ck in F.callee_keys(calls[0]) if ck in F.funcs]
+                if not gs:
+                    continue
+                n_g1 += 1
+                rets = [r_ for r_ in gs[0].walk() if r_.get('k') == 'Return' and r_.get('c')]
+                want = render(x).split('->')[-1].split('.')[0] if mem else ''
+                plain = len(rets) == 1 and render(rets[0]['c'][0]).replace('mPimpl->', 'pFunc()->').split('pFunc()->')[-1] == render(x).replace('mPimpl->', 'pFunc()->').split('pFunc()->')[-1]
+                rep.check(plain, 'C10.G1', '%s::doEquals|%s' % (cls, render(b)[:50]), gs[0].where(), '%s compares `%s` with the other object\'s %s(), which returns `%s`' % (cls, render(x)[:40], calls[0].get('fn'), '; '.join(render(r_['c'][0])[:50] for r_ in rets)), 'plain accessor of the same member')
+    if n_g1 < 8:
+        raise AnalysisBroken('C10.G1: only %d member/getter comparisons found in the doEquals chain (13 confirmed)' % n_g1)
 
 
